@@ -42,7 +42,10 @@ def _(v):
     v.contract("reb_simulation_synchronize", synchronize)
     v.assume(s.status == s.E(I.RUNNING), s.N > 0, s.dt != 0)
     v.call(I.CHECK, rp, s.tmax, s.lfdp)
-    v.prove("dt_changed_implies_synchronised", z3.Implies(r.dt != s.dt, as_int(v.eng.read(v.st, Ptr(rp.obj, ("ri_whfast", "is_synchronized")))) == 1))
+    synced = as_int(v.eng.read(v.st, Ptr(rp.obj, ("ri_whfast", "is_synchronized")))) == 1
+    # split by the input the known finding is about, so that the finding cannot hide a different violation of the same rule
+    v.prove("dt_changed_implies_synchronised.keep_unsynchronized_0", z3.Implies(z3.And(keep == 0, r.dt != s.dt), synced))
+    v.prove("dt_changed_implies_synchronised.keep_unsynchronized_1", z3.Implies(z3.And(keep == 1, r.dt != s.dt), synced))
 
 
 def sync_only_for_exact_finish(v):
